@@ -63,8 +63,11 @@ def judge_order_case(ok, why, outs, stored, tgt, order, arr, elem_ty, RANK):
     return ok, "element projection changes the value (or gradient/variables): %s" % cel.vfmt(x)[:300]
 
 
-def run(ck, facts, tier):
+def run(ck, facts, tier, only=None):
+    """only: None (all) or a set of rule ids (R10.3, R10.4, R10.5, R10.6) when included by C09"""
     hk = {"@elem": gather.container_elem}
+    if only is not None:
+        return run_state_rules(ck, facts, tier, hk)
     # ---------------- R10.1 protocol string
     r1 = ck.rule("R10.1", "naming protocol on both sides of the FFI: Rust names quote i `fx_` + Display(pair_i), Display(FXPair) = the two currency names in order; the "
                           "Python consumer reads f\"fx_{pair}\"", floor=4)
@@ -155,6 +158,17 @@ def run(ck, facts, tier):
             ck.check(r2, key, ok, "a quote that is already a dual number does not keep its own variables and gradient when lifted to order %s: %s" % (o, cel.vfmt(v)[:300] if not isinstance(v, Exception) else v),
                      "rust/dual/dual_ops/convert.rs", sample="value, gradient and variable names kept")
 
+    run_state_rules(ck, facts, tier, hk)
+    # sensitivities are produced by the AD operator rules applied along the chain typing: their exactness is a necessary condition here too
+    from rules import deps
+    deps.include_ad(ck, facts, tier)
+    ck.not_decided += ["numeric value of sensitivities on concrete markets (they follow from C01/C02 applied along the chain typing of C09 R09.2)",
+                       "that a rebuilt market returns the same rates as one built directly is by construction (it IS built directly from the latest quotes by try_new)"]
+    ck.trusted += ["lib/cel.py (iterator/array model, explore())", "MIR place syntax for writes through self"]
+
+
+def run_state_rules(ck, facts, tier, hk):
+    import cfg as cfgmod
     # ---------------- R10.3 atomic update (MIR)
     r3 = ck.rule("R10.3", "atomic refusal: in FXRates::update and FXRates::set_ad_order no block that can return Err is reachable from a block that writes through `self` "
                           "(validation and `?` precede every write): a refused update changes nothing", floor=2)
@@ -293,6 +307,3 @@ def run(ck, facts, tier):
                                     vkey(x.fields["vars"]) == vkey(d.fields["vars"])
                             why = "element projection changes the value (or gradient/variables): %s" % cel.vfmt(x)[:300]
             ck.check(r5, key, ok, why, where, sample={True: "unchanged"}.get(stored == tgt, "rebuild" if RANK[tgt] > RANK[stored] else "project elements"))
-    ck.not_decided += ["numeric value of sensitivities on concrete markets (they follow from C01/C02 applied along the chain typing of C09 R09.2)",
-                       "that a rebuilt market returns the same rates as one built directly is by construction (it IS built directly from the latest quotes by try_new)"]
-    ck.trusted += ["lib/cel.py (iterator/array model, explore())", "MIR place syntax for writes through self"]
